@@ -326,11 +326,11 @@ class CFG:
         """(branch head, label) pairs that dominate n with n only reachable through that label:
         i.e. the guards under which n executes (structural, via dominance on split edges)."""
         out = []
-        d = self.dom().get(n, set())
+        d = sorted(self.dom().get(n, set()), key=lambda x: x.id)  # program order: outermost first
         for h in d:
             if h is n or h.kind not in ("if", "while", "for", "except", "case"):
                 continue
-            labs = set(h.succ.values())
+            labs = sorted(set(h.succ.values()), key=str)
             for lab in labs:
                 others = {s for s, l in h.succ.items() if l != lab}
                 mine = {s for s, l in h.succ.items() if l == lab}
